@@ -196,6 +196,21 @@ def r_pure(prog, R, rid):
                         a2 = strip(a)
                         w2 = _impure(prog, f, a2["t"]) or _impure(prog, f, a2["f"])
                         if not w2:
+                            # the overload applies exactly to the record that is created as OPT: the selecting test compares the very
+                            # expression handed over as the record's type (otherwise a raw-kept OPT loses its CLASS/TTL, or a non-OPT does)
+                            cnd = strip(a2["c"])
+                            if is_var(cnd):
+                                ds = [x for x in _assignments(f, cnd["n"]) if x[2] == "="]
+                                cnd = strip(ds[0][3]) if len(ds) == 1 else cnd
+                            op_, l_, r_ = norm_cmp(cnd, True)
+                            tyarg = c["args"][4] if len(c["args"]) > 4 else None
+                            if r_ is None or op_ not in ("==", "!=") or name_of_const(r_) != "ARES_REC_TYPE_OPT":
+                                r.broke("%s: selecting test of the OPT overload not recognised (%s)" % (f.name, render(cnd)))
+                                continue
+                            if render(strip(l_)) != render(strip(tyarg)):
+                                w2 = ("the CLASS/TTL overload of OPT is selected by '%s' while the record is created with type '%s': a record kept raw (ARES_DNS_PARSE_*_EXT_RAW) that is an OPT on the wire "
+                                      "is stored with class IN and ttl 0 instead of its wire values (UDP size, extended RCODE, version, DO bit are lost and re-written wrong)" % (render(cnd), render(strip(tyarg))))
+                        if not w2:
                             r.ok(k + " (frozen overload)", f.loc(c["ln"]))
                             continue
                         why = w2
@@ -375,3 +390,66 @@ def r_rcode(prog, R, rid):
         else:
             r.ok(k, f.loc(f.ln))
     r.require(n >= 1, "ares_dns_write_header: no header part found")
+
+
+def _full_scan(prog, f, depth=0):
+    """None if f visits every RR of the additional section looking for OPT, else a reason"""
+    getters = ("ares_dns_record_rr_get", "ares_dns_record_rr_get_const")
+    for h, body in f.natural_loops().items():
+        br = f.branch(h)
+        if not br:
+            continue
+        pol = br[1] in body
+        op, l, rr = norm_cmp(br[0], pol)
+        if rr is None or op != "<" or not is_var(strip(l)):
+            continue
+        iv = strip(l)["n"]
+        bound = strip(rr)
+        bc = None
+        if bound is not None and bound.get("k") == "call":
+            bc = f.call_by_id(bound["id"])[2] if bound.get("ref") else bound
+        elif bound is not None and bound.get("k") == "var":
+            for b, i, op2, rhs, el in _assignments(f, bound["n"]):
+                r2 = strip(rhs)
+                if r2 is not None and r2.get("k") == "call":
+                    bc = f.call_by_id(r2["id"])[2] if r2.get("ref") else r2
+        if bc is None or bc.get("callee") != "ares_dns_record_rr_cnt" or "ARES_SECTION_ADDITIONAL" not in render(bc["args"][1]):
+            continue
+        asg = _assignments(f, iv)
+        inits = [a for a in asg if a[0].id not in body]
+        steps = [a for a in asg if a[0].id in body]
+        if not inits or any(const_val(a[3]) != 0 for a in inits):
+            return "the scan of the additional section does not start at its first record"
+        if len(steps) != 1 or steps[0][2] != "++":
+            return "the scan index is not advanced by exactly one per round"
+        fetch = [c for b, i, c in f.calls() if b.id in body and c.get("callee") in getters and len(c.get("args", [])) == 3 and is_var(strip(c["args"][2]), iv)
+                 and "ARES_SECTION_ADDITIONAL" in render(c["args"][1])]
+        if not fetch:
+            return "the loop over the additional section does not fetch the record at the loop index"
+        return None
+    # a thin wrapper around a sibling that scans
+    if depth < 2:
+        for b, i, c in f.calls():
+            t = prog.resolve(f, c)
+            if t is not None and t.name.startswith("ares_dns_get_opt_rr") and t.key != f.key:
+                return _full_scan(prog, t, depth + 1)
+    return "no loop over all records of the additional section (index 0 .. ares_dns_record_rr_cnt(ADDITIONAL))"
+
+
+def r_optscan(prog, R, rid):
+    r = R.rule(rid, "the OPT pseudo-record is found wherever it stands in the additional section: the lookup walks index 0 .. rr_cnt(ADDITIONAL) one by one (the header writer asks it "
+               "whether an extended RCODE can be carried, the parser and the EDNS/cookie code ask it for the record; RFC 6891 does not make OPT the last record)", floor=2,
+               analysis="induction-variable shape of the lookup loop (start 0, step 1, bound = section count, fetch at the index)")
+    for nm in ("ares_dns_get_opt_rr", "ares_dns_get_opt_rr_const"):
+        f = prog.by_name.get(nm)
+        f = f[0] if isinstance(f, list) and f else f
+        if f is None:
+            r.broke("%s not found" % nm)
+            continue
+        why = _full_scan(prog, f)
+        k = "fn=%s scans the whole additional section" % nm
+        if why:
+            r.viol(k, f.name, f.loc(f.ln), "%s: %s -- with another record behind the OPT record the writer believes there is no OPT, writes the low 4 bits of an extended RCODE only (BADCOOKIE goes out as "
+                   "SERVFAIL in the header while the OPT record still carries the high bits) and the parsed message reports a different RCODE" % (nm, why))
+        else:
+            r.ok(k, f.loc(f.ln))
